@@ -6,10 +6,12 @@ import (
 
 	"github.com/sboehler/knut/lib/amounts"
 	"github.com/sboehler/knut/lib/common/date"
+	"github.com/sboehler/knut/lib/common/dict"
 	"github.com/sboehler/knut/lib/common/predicate"
 	"github.com/sboehler/knut/lib/common/set"
 	"github.com/sboehler/knut/lib/journal"
 	"github.com/sboehler/knut/lib/model"
+	"github.com/sboehler/knut/lib/model/commodity"
 	"github.com/sboehler/knut/lib/model/registry"
 )
 
@@ -205,17 +207,18 @@ func Performance(dpv *journal.Performance) float64 {
 		v0, v1          float64
 		inflow, outflow = dpv.PortfolioInflow, dpv.PortfolioOutflow
 	)
-	for _, v := range dpv.V0 {
-		v0 += v
+	// sum in a fixed order: the result of a floating point sum depends on the order
+	for _, c := range dict.SortedKeys(dpv.V0, commodity.Compare) {
+		v0 += dpv.V0[c]
 	}
-	for _, v := range dpv.V1 {
-		v1 += v
+	for _, c := range dict.SortedKeys(dpv.V1, commodity.Compare) {
+		v1 += dpv.V1[c]
 	}
-	for _, v := range dpv.Inflow {
-		inflow += v
+	for _, c := range dict.SortedKeys(dpv.Inflow, commodity.Compare) {
+		inflow += dpv.Inflow[c]
 	}
-	for _, v := range dpv.Outflow {
-		outflow += v
+	for _, c := range dict.SortedKeys(dpv.Outflow, commodity.Compare) {
+		outflow += dpv.Outflow[c]
 	}
 	if v0 == v1 && inflow == 0 && outflow == 0 {
 		return 1
